@@ -9,6 +9,12 @@ from reamber.osu.OsuSampleSet import OsuSampleSet
 from reamber.osu.lists.OsuSampleList import OsuSampleList
 
 
+def _num(v) -> str:
+    """Shortest text that reads back as exactly this number"""
+    f = float(v)
+    return str(int(f)) if f.is_integer() else repr(f)
+
+
 class OsuMapMode:
     """This determines the mode of the map.
 
@@ -176,7 +182,7 @@ class OsuMapMeta(
             "",
             "[General]",
             f"AudioFilename: {self.audio_file_name}",
-            f"AudioLeadIn: {self.audio_lead_in:g}",
+            f"AudioLeadIn: {_num(self.audio_lead_in)}",
             f"PreviewTime: {int(self.preview_time)}",
             f"Countdown: {int(self.countdown)}",
             f"SampleSet: {OsuSampleSet.to_string(self.sample_set)}",
@@ -187,10 +193,10 @@ class OsuMapMeta(
             f"WidescreenStoryboard: {int(self.widescreen_storyboard)}",
             "",
             "[Editor]",
-            f"DistanceSpacing: {self.distance_spacing:g}",
-            f"BeatDivisor: {self.beat_divisor:g}",
-            f"GridSize: {self.grid_size:g}",
-            f"TimelineZoom: {self.timeline_zoom:g}",
+            f"DistanceSpacing: {_num(self.distance_spacing)}",
+            f"BeatDivisor: {_num(self.beat_divisor)}",
+            f"GridSize: {_num(self.grid_size)}",
+            f"TimelineZoom: {_num(self.timeline_zoom)}",
             "",
             "[Metadata]",
             f"Title:{unidecode(self.title)}",
@@ -205,12 +211,12 @@ class OsuMapMeta(
             f"BeatmapSetID:{self.beatmap_set_id}",
             "",
             "[Difficulty]",
-            f"HPDrainRate:{self.hp_drain_rate:g}",
-            f"CircleSize:{self.circle_size:g}",
-            f"OverallDifficulty:{self.overall_difficulty:g}",
-            f"ApproachRate:{self.approach_rate:g}",
-            f"SliderMultiplier:{self.slider_multiplier:g}",
-            f"SliderTickRate:{self.slider_tick_rate:g}",
+            f"HPDrainRate:{_num(self.hp_drain_rate)}",
+            f"CircleSize:{_num(self.circle_size)}",
+            f"OverallDifficulty:{_num(self.overall_difficulty)}",
+            f"ApproachRate:{_num(self.approach_rate)}",
+            f"SliderMultiplier:{_num(self.slider_multiplier)}",
+            f"SliderTickRate:{_num(self.slider_tick_rate)}",
             "",
             "[Events]",
             "//Background and Video events",
